@@ -23,11 +23,12 @@ import (
 )
 
 type Input struct {
-	Desc   string      `json:"desc"`
-	Files  []dump.File `json:"files"`
-	Mutant *dump.File  `json:"mutating_module,omitempty"`
-	Victim string      `json:"mutated_instance,omitempty"`
-	Others []string    `json:"other_instances,omitempty"`
+	Desc    string      `json:"desc"`
+	Files   []dump.File `json:"files"`
+	Mutant  *dump.File  `json:"mutating_module,omitempty"`
+	Mutant2 *dump.File  `json:"second_mutating_module,omitempty"`
+	Victim  string      `json:"mutated_instance,omitempty"`
+	Others  []string    `json:"other_instances,omitempty"`
 	// expectation for phase 1 is recomputed from the generator on replay via Index
 	Index int `json:"index"`
 }
@@ -149,6 +150,15 @@ var mutations = []mutation{
 	{"deviate-replace-min-max", func(e *ir.E) bool { return e.Kind == "list" || e.Kind == "leaf-list" }, func(p string) string {
 		return `deviation "` + p + `" { deviate replace { min-elements 3; max-elements 5; } }`
 	}},
+	{"deviate-replace-default", func(e *ir.E) bool { return e.Kind == "leaf" && e.Default != "" }, func(p string) string {
+		return `deviation "` + p + `" { deviate replace { default 9; } }`
+	}},
+	{"deviate-add-default-leaf-list", func(e *ir.E) bool { return e.Kind == "leaf-list" }, func(p string) string {
+		return `deviation "` + p + `" { deviate add { default 8; } }`
+	}},
+	{"deviate-replace-default-leaf-list", func(e *ir.E) bool { return e.Kind == "leaf-list" && e.Default != "" }, func(p string) string {
+		return `deviation "` + p + `" { deviate replace { default 8; } }`
+	}},
 	{"deviate-delete-default", func(e *ir.E) bool { return e.Kind == "leaf" && e.Default != "" }, func(p string) string {
 		return `deviation "` + p + `" { deviate delete { default 3; } }`
 	}},
@@ -198,6 +208,93 @@ func checkIndependence(c fam.Case, report func(in Input, f *fail), count func())
 			}
 		}
 	}
+}
+
+// checkBoth mutates both instances at once (the same kind of mutation, from two modules): each
+// instance must come out exactly as in the run where it alone was mutated.
+func checkBoth(c fam.Case, report func(in Input, f *fail), count func()) {
+	w := c.W
+	if len(c.Sites) != 2 {
+		return
+	}
+	files := ircmp.Files(w, []string{"a", "as", "b"})
+	for _, mu := range mutations {
+		var texts [2]string
+		ok := true
+		for vi, victim := range c.Sites {
+			vmod := victim[0]
+			if vmod == "as" {
+				vmod = "a"
+			}
+			vt := w.Trees[vmod].Kids[victim[1]]
+			if vt == nil {
+				ok = false
+				break
+			}
+			names := firstInside(vt, mu.want)
+			if names == nil {
+				ok = false
+				break
+			}
+			path := ""
+			for _, n := range names {
+				path += "/" + vmod + ":" + n
+			}
+			body := mu.text(path)
+			body = strings.ReplaceAll(strings.ReplaceAll(body, "default 8;", fmt.Sprintf("default 8%d;", vi)), "default 9;", fmt.Sprintf("default 9%d;", vi))
+			texts[vi] = fmt.Sprintf(`module mu%d { namespace "urn:mu%d"; prefix mu%d; import a { prefix a; } import b { prefix b; } %s }`, vi, vi, vi, body)
+		}
+		if !ok {
+			continue
+		}
+		count()
+		in := Input{Desc: c.Desc + " both-mutated=" + mu.name, Files: files, Mutant: &dump.File{Name: "mu0.yang", Text: texts[0]}, Mutant2: &dump.File{Name: "mu1.yang", Text: texts[1]},
+			Victim: c.Sites[0][0] + "/" + c.Sites[0][1], Others: []string{c.Sites[1][0] + "/" + c.Sites[1][1]}}
+		if f := both(in); f != nil {
+			f.classes = classes(c)
+			report(in, f)
+		}
+	}
+}
+
+func both(in Input) *fail {
+	var f *fail
+	pan, pt := core.Guard(func() {
+		sub := func(r dump.Result, site string) string {
+			mod, node, _ := strings.Cut(site, "/")
+			if mod == "as" {
+				mod = "a"
+			}
+			return subtree(r.MS, mod, node)
+		}
+		r0 := dump.Run(append(append([]dump.File{}, in.Files...), *in.Mutant), dump.Options{})
+		r1 := dump.Run(append(append([]dump.File{}, in.Files...), *in.Mutant2), dump.Options{})
+		if len(r0.ProcErrs)+len(r1.ProcErrs) > 0 {
+			return // the single-mutation phase reports that
+		}
+		for _, files := range [][]dump.File{
+			append(append([]dump.File{}, in.Files...), *in.Mutant, *in.Mutant2),
+			append([]dump.File{*in.Mutant2, *in.Mutant}, in.Files...),
+		} {
+			rb := dump.Run(files, dump.Options{})
+			if len(rb.ProcErrs) > 0 {
+				f = &fail{"both-mutations-give-errors", "no errors", dump.Errors(rb.ProcErrs), nil}
+				return
+			}
+			if want, got := sub(r0, in.Victim), sub(rb, in.Victim); want != got {
+				f = &fail{"instances-interfere-when-both-are-mutated", want, got, nil}
+				return
+			}
+			if want, got := sub(r1, in.Others[0]), sub(rb, in.Others[0]); want != got {
+				f = &fail{"instances-interfere-when-both-are-mutated", want, got, nil}
+				return
+			}
+		}
+	})
+	if pan {
+		return &fail{"panic@" + core.LastPanicSite, "no panic", pt, nil}
+	}
+	return f
 }
 
 func independence(base *yang.Modules, in Input) *fail {
@@ -290,6 +387,17 @@ func run(c *core.Ctx) {
 			b, _ := json.Marshal(in)
 			c.Sample(string(b))
 		}
+		checkBoth(cs, func(in Input, f *fail) {
+			c.Outcome("FAIL:" + f.fp)
+			c.Fail(caseNo, f.classes, f.fp, in, f.exp, f.obs)
+		}, func() {
+			c.Exec()
+			c.Validate()
+			c.Edge(4)
+			c.StateN(1)
+			c.NontrivialN(1)
+			c.Outcome("both-mutated-checked")
+		})
 		checkIndependence(cs, func(in Input, f *fail) {
 			c.Outcome("FAIL:" + f.fp)
 			c.Fail(caseNo, f.classes, f.fp, in, f.exp, f.obs)
@@ -310,7 +418,9 @@ func replay(tier string, raw json.RawMessage) (bool, string, string) {
 		return false, "", err.Error()
 	}
 	var f *fail
-	if in.Mutant != nil {
+	if in.Mutant2 != nil {
+		f = both(in)
+	} else if in.Mutant != nil {
 		f = independence(nil, in)
 	} else {
 		i := 0
